@@ -20,6 +20,13 @@ spec/mc/Gen_DeliveryRetry prints every delivery with the expectation; harness/c2
 real notify.RetryStage + notify.SetNotifiesStage + nflog.Log against a scripted loopback endpoint
 and judges the clauses over the observed run (tolerance 500 ms, candidates re-run twice).
 
+Concurrent deliveries through ONE notifier instance (spec/DeliveryConc.tla: independent deliveries,
+the payload a function of the call's own batch; the shared-buffer variant MC_DeliveryConc_shared.cfg
+must be refuted): Gen_DeliveryConc prints sets of 2-4 batches, harness/c20p (TestConcReplay)
+releases them together on one real webhook / pagerduty notifier behind one RetryStage +
+SetNotifiesStage and compares every body the endpoint received with the payload of the call
+that sent it.
+
 The sibling clauses of C20 and the end-to-end retry clauses are checks/c20.py; the coordinator
 calls run_payload() from there.  `bin/check C20P` runs this half alone (out/C20P), reporting
 for property C20."""
@@ -50,8 +57,14 @@ ASSUMPTIONS = [
     "against the configured timeout, state of the flush context), not from the script; the notifier is built with a recording "
     "dialer and keep-alives off (HTTP client options of its constructor), otherwise as configured",
     "retry: the statement does not say whether 429 is recoverable: the notifier's own rule (Retrier.RetryCodes) is the model, "
-    "a deviation is DRIFT; a 2xx reported as failure, a return before the deadline without a due retry, gaps below the back-off's "
-    "lower bound and error texts are DRIFT as well",
+    "a deviation is DRIFT; a 2xx reported as failure, a return before the deadline without a due retry, one of the first three gaps "
+    "below the back-off's lower bound and error texts are DRIFT as well",
+    "retry: 'with backoff' is judged from the 4th gap on (>= 0.5 x 500 ms x 1.5^(k-1) - 100 ms, counted between the starts of the "
+    "attempts): flushes of 7 s (thorough 5 s, 8 s) with 5-7 consecutive recoverable failures",
+    "payload: alerts whose end was derived from resolve_timeout (Timeout flag) are part of the random universe and of the size "
+    "batches; the end time shown for a firing alert is not fixed by the statement (DRIFT)",
+    "concurrent: 2-4 calls released together on one notifier, 4 rounds per set, endpoint latency 4 ms; which interleavings occur is "
+    "up to the scheduler (a defect that needs overlapping calls is found with high probability, not with certainty)",
 ]
 
 
@@ -230,7 +243,7 @@ def _judge_retry(v, wd, r, n_in, tag="retry", single=False):
     return counters, nviol
 
 
-def _retry_finish(pid, wd, thorough, v, binp, mc, mcs, gen):
+def _retry_finish(pid, wd, thorough, v, binp, mc, mcs, gen, mcf):
     seed = vlib.seed()
     vlib.tlc_must_pass(mc, "MC_DeliveryRetry")
     if mc.distinct < 50000:
@@ -238,6 +251,9 @@ def _retry_finish(pid, wd, thorough, v, binp, mc, mcs, gen):
     if mcs.timed_out or mcs.error or mcs.violated != "InvClauses":
         raise vlib.Inconclusive("MC_DeliveryRetry_seed.cfg: the clauses did not reject a notifier that reports its own timeout as "
                                 "unrecoverable (violated=%s error=%s, see %s)" % (mcs.violated, mcs.error, mcs.stdout_path))
+    if mcf.timed_out or mcf.error or mcf.violated != "InvClauses":
+        raise vlib.Inconclusive("MC_DeliveryRetry_flat.cfg: the clauses did not reject a back-off that never grows (violated=%s error=%s, see %s)"
+                                % (mcf.violated, mcf.error, mcf.stdout_path))
     g, gen_all = gen
     inp = os.path.join(wd, "retry_gen.jsonl")
     n_all, n_use, n_short, n_long = _retry_select(gen_all, inp, thorough, seed)
@@ -253,16 +269,18 @@ def _retry_finish(pid, wd, thorough, v, binp, mc, mcs, gen):
         need = {"retry_cases_webhook": 900, "retry_cases_pagerduty": 300, "retry_cases_timeout_configured": 600,
                 "retry_cases_cancelled": 250, "retry_cases_with_retries": 800, "retry_obligations": 800, "retry_logged": 150,
                 "retry_why_2xx": 150, "retry_why_4xx": 60, "retry_why_429": 100, "retry_why_5xx": 400, "retry_why_conn": 800,
-                "retry_why_timeout": 250, "retry_why_cut": 60, "retry_ended_unrecoverable": 100}
+                "retry_why_timeout": 250, "retry_why_cut": 60, "retry_ended_unrecoverable": 100,
+                "retry_cases_long_flush": 10, "retry_lowbound_judged": 12}
         for k, n in need.items():
             if counters.get(k, 0) < n:
                 raise vlib.Inconclusive("retry replay reached too few cases of kind %s: %d < %d" % (k, counters.get(k, 0), n))
     wave = [n for n in (r.get("notes") or []) if n.startswith("retry_wave")]
     log("  retry replay: %d deliveries on the real notifiers (%d webhook, %d pagerduty; %d with timeout configured, %d cancelled), "
-        "%d attempts, %d retry obligations judged, %d recorded in the nflog, %d off-nominal, %d outside the model's counts, %d violations (%s)"
+        "%d attempts, %d retry obligations and %d back-off lower bounds judged, %d recorded in the nflog, %d off-nominal, %d outside the model's counts, %d violations (%s)"
         % (counters.get("retry_cases", 0), counters.get("retry_cases_webhook", 0), counters.get("retry_cases_pagerduty", 0),
            counters.get("retry_cases_timeout_configured", 0), counters.get("retry_cases_cancelled", 0), counters.get("retry_attempts", 0),
-           counters.get("retry_obligations", 0), counters.get("retry_logged", 0), counters.get("retry_offnominal_cases", 0),
+           counters.get("retry_obligations", 0), counters.get("retry_lowbound_judged", 0), counters.get("retry_logged", 0),
+           counters.get("retry_offnominal_cases", 0),
            counters.get("retry_outside_model", 0), nviol, "; ".join(wave)))
     return {
         "states": mc.distinct, "transitions": mc.generated,
@@ -270,7 +288,8 @@ def _retry_finish(pid, wd, thorough, v, binp, mc, mcs, gen):
         "counters": counters, "samples": r["samples"][:2],
         "bounds": ("retry MC (%s): %d states: notifier type {webhook, pagerduty} x canonical outcome scripts over {ok, slow, c4xx, c429, c5xx, "
                    "refused, reset, hangT, hangD} of length <= %s (webhook) / <= %s (pagerduty), the last outcome repeating x own timeout "
-                   "configured or not (300 ms) x end of the flush {deadline 450, 1600, 2900 ms; deadline 2900 ms cancelled at 130, 950 ms} x "
+                   "configured or not (300 ms) x end of the flush {deadline 450, 1600, 2900 ms; deadline 2900 ms cancelled at 130, 950 ms}, plus "
+                   "scripts of recoverable failures only in long flushes (quick 7 s, thorough 5 / 8 s) x "
                    "the extreme gaps of the back-off ticker. Gen (%s; webhook scripts <= 4, pagerduty <= %s): %d deliveries, %d with every scripted outcome reachable; replayed: "
                    "all %d with <= 3 outcomes, %d %s with 4 (seed %d)" %
                    ("MC_DeliveryRetry_thorough.cfg" if thorough else "MC_DeliveryRetry.cfg", mc.distinct,
@@ -283,6 +302,66 @@ def _retry_finish(pid, wd, thorough, v, binp, mc, mcs, gen):
     }
 
 
+# --------------------------------------------------------------------------- concurrent deliveries through one notifier
+def _conc_gen(pid, wd, thorough, seed):
+    out = os.path.join(wd, "conc_gen.jsonl")
+    g = vlib.tlc(pid, "conc_sim", "Gen_DeliveryConc", "Sim_DeliveryConc.cfg", workers=1, timeout=600 if thorough else 240,
+                 simulate="num=%d" % (60 if thorough else 12), depth=26, extra=["-seed", str(seed)], marker="@@H ", payload_to=out + ".raw")
+    return g, out
+
+
+def _conc_finish(pid, wd, thorough, v, binp, mc, mcs, gen):
+    vlib.tlc_must_pass(mc, "MC_DeliveryConc")
+    if mcs.timed_out or mcs.error or mcs.violated not in ("Faithful", "NothingElse", "RecordedIntact"):
+        raise vlib.Inconclusive("MC_DeliveryConc_shared.cfg: the invariants did not refute a notifier that keeps the encoded payload in a "
+                                "shared field (violated=%s error=%s, see %s)" % (mcs.violated, mcs.error, mcs.stdout_path))
+    g, out = gen
+    if g.timed_out or g.violated or g.error or g.rc != 0:
+        raise vlib.Inconclusive("Sim_DeliveryConc: TLC failed: %s %s (see %s)" % (g.violated, g.error, g.stdout_path))
+    nsets = _dedupe(out + ".raw", out)
+    if nsets < 200:
+        raise vlib.Inconclusive("Gen_DeliveryConc produced too few sets (%d)" % nsets)
+    res = os.path.join(wd, "conc_replay.json")
+    rc, txt = vlib.go_run_test(binp, "TestConcReplay$", ["-in", out, "-out", res], timeout=600)
+    if rc != 0:
+        raise vlib.Inconclusive("concurrent replay harness failed:\n" + txt[-3000:])
+    r = vlib.load_result(res)
+    counters = r["counters"]
+    nviol = 0
+    for m in r["mismatches"]:
+        cls = m.get("class") or ""
+        desc = "%s: want %s got %s" % (m["what"], json.dumps(m.get("want"), ensure_ascii=False)[:300], json.dumps(m.get("got"), ensure_ascii=False)[:900])
+        if cls == "drift":
+            v.notes.append("DRIFT property=%s concurrent: %s" % (PROP, desc[:700]))
+            continue
+        nviol += 1
+        if nviol <= 5:
+            rp = os.path.join(wd, "conc_replay_violation_%d.json" % nviol)
+            json.dump(m.get("replay"), open(rp, "w"))
+            v.violation(desc, [rp])
+    if counters.get("mismatch_violation", 0) > 0 and nviol == 0:
+        raise vlib.Inconclusive("concurrent replay counted violations but listed none")
+    if nviol == 0:
+        if counters.get("conc_harness_errors", 0) > 0 or counters.get("conc_calls_failed", 0) > 0.01 * counters.get("conc_calls", 1):
+            raise vlib.Inconclusive("concurrent replay: %d harness errors, %d of %d calls failed against an endpoint that answers 200"
+                                    % (counters.get("conc_harness_errors", 0), counters.get("conc_calls_failed", 0), counters.get("conc_calls", 0)))
+        need = {"conc_sets": 200, "conc_sets_webhook": 60, "conc_sets_pagerduty": 60, "conc_rounds": 800, "conc_calls": 2000,
+                "conc_bodies_intact": 1500}
+        for k, n in need.items():
+            if counters.get(k, 0) < n:
+                raise vlib.Inconclusive("concurrent replay reached too few cases of kind %s: %d < %d" % (k, counters.get(k, 0), n))
+    log("  MC_DeliveryConc: %d states, independent deliveries are faithful; shared-buffer variant refuted (%s); concurrent replay: %d sets "
+        "(%d webhook, %d pagerduty), %d rounds, %d calls released together, %d bodies received and compared, %d violations"
+        % (mc.distinct, mcs.violated, counters.get("conc_sets", 0), counters.get("conc_sets_webhook", 0), counters.get("conc_sets_pagerduty", 0),
+           counters.get("conc_rounds", 0), counters.get("conc_calls", 0), counters.get("conc_bodies", 0), nviol))
+    return {"states": mc.distinct, "transitions": mc.generated, "cases": r["cases"], "calls": counters.get("conc_calls", 0),
+            "nontrivial": counters.get("conc_rounds", 0), "counters": counters, "samples": r["samples"][:1],
+            "bounds": "concurrent MC (MC_DeliveryConc.cfg): %d states, 3 calls x 2 chunks, every interleaving of encode / read / send / ack / record. "
+                      "Gen (Sim_DeliveryConc.cfg, seed %d): %d sets of 2-4 batches (1-3 alerts each over 3 label names x 2 values, 2 annotation "
+                      "names, 5 end kinds) x notifier {webhook max_alerts 0..2, pagerduty} x send_resolved, 4 rounds each"
+                      % (mc.distinct, vlib.seed(), nsets)}
+
+
 def run_payload(pid, tier, v):
     """Runs the payload half; records violations / known findings on v; returns coverage additions."""
     wd = os.path.join(vlib.OUT, pid)
@@ -291,7 +370,7 @@ def run_payload(pid, tier, v):
     seed = vlib.seed()
 
     # TLC jobs of both halves and the harness build run side by side (they are independent)
-    pool = ThreadPoolExecutor(max_workers=7)
+    pool = ThreadPoolExecutor(max_workers=11)
     f_mc = pool.submit(vlib.tlc, pid, "payload_mc", "MC_Delivery", "MC_Delivery_thorough.cfg" if thorough else "MC_Delivery.cfg",
                        workers=8, timeout=1200 if thorough else 240)
     f_bin = pool.submit(vlib.go_build_test, pid, "c20p")
@@ -306,6 +385,10 @@ def run_payload(pid, tier, v):
     f_rmc = pool.submit(_retry_tlc, pid, thorough)
     f_rmcs = pool.submit(_retry_seed_tlc, pid)
     f_rgen = pool.submit(_retry_gen, pid, wd, thorough)
+    f_rflat = pool.submit(vlib.tlc, pid, "retry_mc_flat", "MC_DeliveryRetry", "MC_DeliveryRetry_flat.cfg", workers=2, timeout=240)
+    f_cmc = pool.submit(vlib.tlc, pid, "conc_mc", "MC_DeliveryConc", "MC_DeliveryConc.cfg", workers=2, timeout=240)
+    f_cmcs = pool.submit(vlib.tlc, pid, "conc_mc_shared", "MC_DeliveryConc", "MC_DeliveryConc_shared.cfg", workers=2, timeout=240)
+    f_cgen = pool.submit(_conc_gen, pid, wd, thorough, seed)
     pool.shutdown(wait=True)
 
     # 1. the definitions: laws of the statement over every case of the small universes
@@ -329,7 +412,10 @@ def run_payload(pid, tier, v):
         raise vlib.Inconclusive("Gen_Delivery produced too few cases")
 
     # 2b. the retry contract of one real notifier, in real time (before the CPU-heavy payload replay)
-    retry = _retry_finish(pid, wd, thorough, v, binp, f_rmc.result(), f_rmcs.result(), f_rgen.result())
+    retry = _retry_finish(pid, wd, thorough, v, binp, f_rmc.result(), f_rmcs.result(), f_rgen.result(), f_rflat.result())
+
+    # 2c. concurrent deliveries through one notifier instance
+    conc = _conc_finish(pid, wd, thorough, v, binp, f_cmc.result(), f_cmcs.result(), f_cgen.result())
 
     # 3. replay on the real code
     results = []
@@ -340,7 +426,7 @@ def run_payload(pid, tier, v):
     # vacuity: the critical regions were reached
     need = {"batches": 5000, "batches_nontrivial": 2000, "webhook_posts": 4000, "webhook_truncated": 500,
             "webhook_resolved_dropped": 500, "webhook_not_sent": 50, "string_evaluations": 40000,
-            "strings_truncated": 1000}
+            "strings_truncated": 1000, "batches_with_timed_out_alert": 1000}
     for k, n in need.items():
         if counters.get(k, 0) < n:
             raise vlib.Inconclusive("payload replay reached too few cases of kind %s: %d < %d" % (k, counters.get(k, 0), n))
@@ -362,11 +448,12 @@ def run_payload(pid, tier, v):
         "%d violations" % (cases, counters["batches"], counters["template_data"], counters["webhook_posts"],
                            counters["strings"], counters["string_evaluations"], nviol))
     return {
-        "states": mc.distinct + retry["states"], "transitions": mc.generated + retry["transitions"],
-        "traces_validated_against_impl": cases + retry["cases"],
+        "states": mc.distinct + retry["states"] + conc["states"], "transitions": mc.generated + retry["transitions"] + conc["transitions"],
+        "traces_validated_against_impl": cases + retry["cases"] + conc["cases"],
+        "conc_counters": conc["counters"], "conc_bounds": conc["bounds"], "conc_samples": conc["samples"],
         "evaluations": (counters["template_data"] + counters["webhook_posts"] + counters["webhook_not_sent"] + counters["string_evaluations"]
-                        + retry["attempts"]),
-        "distinct_nontrivial": nontrivial + retry["nontrivial"],
+                        + retry["attempts"] + conc["calls"]),
+        "distinct_nontrivial": nontrivial + retry["nontrivial"] + conc["nontrivial"],
         "retry_counters": retry["counters"], "retry_bounds": retry["bounds"], "retry_rule": retry["rule"], "retry_samples": retry["samples"],
         "rule": "payload: one case = one batch (alerts, group labels, send_resolved, max_alerts) or one string with its limits, "
                 "distinct as printed by TLC; non-trivial batch = at least two listed alerts that differ and either a non-empty "
@@ -381,7 +468,7 @@ def run_payload(pid, tier, v):
                     "Gen_Delivery_thorough.cfg" if thorough else "Gen_Delivery.cfg", g1.behaviours,
                     "3" if thorough else "2", "27" if thorough else "48",
                     "3" if thorough else "2", "8" if thorough else "6", "7" if thorough else "5", "64" if thorough else "44", seed, nsim)
-                   + " | " + retry["bounds"]),
+                   + " | " + retry["bounds"] + " | " + conc["bounds"]),
         "samples": samples,
         "payload_counters": counters,
         "payload_assumptions": ASSUMPTIONS,
@@ -409,6 +496,20 @@ def replay(path, v):
             f.write(json.dumps(data) + "\n")
         r = _retry_replay(binp, inp, os.path.join(wd, "retry_replay_out.json"), vlib.seed())
         _judge_retry(v, wd, r, 1, tag="retry_single", single=True)
+        return
+    if isinstance(data, dict) and data.get("k") == "conc":
+        inp = os.path.join(wd, "conc_replay_in.jsonl")
+        with open(inp, "w") as f:
+            f.write(json.dumps([data] * 25) + "\n")      # the set is released 100 times
+        out = os.path.join(wd, "conc_replay_out.json")
+        rc, txt = vlib.go_run_test(binp, "TestConcReplay$", ["-in", inp, "-out", out], timeout=600)
+        if rc != 0:
+            raise vlib.Inconclusive("concurrent replay harness failed:\n" + txt[-3000:])
+        for i, m in enumerate(vlib.load_result(out)["mismatches"][:3]):
+            if (m.get("class") or "") != "drift":
+                rp = os.path.join(wd, "conc_single_violation_%d.json" % i)
+                json.dump(m.get("replay"), open(rp, "w"))
+                v.violation("%s: got %s" % (m["what"], json.dumps(m.get("got"))[:900]), [rp])
         return
     if isinstance(data, dict):
         data = [data]
